@@ -9,6 +9,7 @@ functions, (3) inlining the workspace body up to a depth bound; anything else yi
 import copy
 import os
 import re
+import sys
 
 from .facts import AnalysisError
 
@@ -19,6 +20,9 @@ class Unknown:
 
     def __repr__(self):
         return "?" + (("<%s>" % self.why) if self.why else "")
+
+
+RDEPTH_LIMIT = 32
 
 
 class Sym:
@@ -721,6 +725,9 @@ class Interp:
                             flds = {}
                             for fd in vdef["fields"]:
                                 cs = Sym(dv.sym.name + "." + fd["name"], adt=fd.get("core") if fd.get("core") in self.fx.adts else None)
+                                if cs.name.count(".") > RDEPTH_LIMIT:
+                                    raise AnalysisError("interp: %s refines a symbolic %s more than %d levels deep (a loop over an unknown tree)" %
+                                                        (fr.f["key"], v.adt.split("::")[-1], RDEPTH_LIMIT))
                                 cs.inst = fd.get("inst") or None
                                 flds[fd["name"]] = cs
                             self.write_ref(dv.ref, Adt(v.adt, choice, flds))
